@@ -994,7 +994,7 @@ class Twist3(SMTwist):
         - ``s * X`` performs elementwise multiplication of the elements of ``X`` by ``s``
         """
         if base.isscalar(left):
-            return Twist3(right.S * left)
+            return Twist3([x * left for x in right.data])
         else:
             raise ValueError('Twist3 *, incorrect left operand')
 
@@ -1455,11 +1455,11 @@ class Twist2(SMTwist):
         else:
             raise ValueError('Twist2 *, incorrect right operand')
 
-    def __rmul(self, left):
+    def __rmul__(right, left):  # lgtm[py/not-named-self] pylint: disable=no-self-argument
         if base.isscalar(left):
-            return Twist2(self.S * left)
+            return Twist2([x * left for x in right.data])
         else:
-            raise ValueError('twist *, incorrect left operand')
+            raise ValueError('Twist2 *, incorrect left operand')
 
     def __str__(self):
         """
